@@ -453,6 +453,8 @@ type run struct {
 	had5xx   bool
 	had413   int
 	inDLQ    map[int]bool
+	// commits issued by the main output's batcher (the dead-queue stub commits what it is handed itself)
+	mainCommits map[int]int
 }
 
 // dlq is the dead-queue output of the runs that configure one: it records which events a given-up batch
@@ -473,6 +475,7 @@ type ctl struct{ r *run }
 func (c *ctl) Commit(e *pipeline.Event) {
 	if id, ok := c.r.events[e]; ok {
 		c.r.commits[id]++
+		c.r.mainCommits[id]++
 	}
 }
 func (c *ctl) Error(string) {}
@@ -837,7 +840,7 @@ func trunc(b []byte) string {
 func (h *H) Run(cc core.Cfg, sim *simrt.Sim) *core.Outcome {
 	cfg := cc.(*Cfg)
 	o := &core.Outcome{NonTrivial: map[string]bool{}, Probes: map[string]int{}}
-	r := &run{cfg: cfg, o: o, byID: map[int]Ev{}, want: map[int]any{}, deliv: map[int][]delivery{}, commits: map[int]int{}, events: map[*pipeline.Event]int{}, tooLarge: map[int]bool{}, inDLQ: map[int]bool{}}
+	r := &run{cfg: cfg, o: o, byID: map[int]Ev{}, want: map[int]any{}, deliv: map[int][]delivery{}, commits: map[int]int{}, events: map[*pipeline.Event]int{}, tooLarge: map[int]bool{}, inDLQ: map[int]bool{}, mainCommits: map[int]int{}}
 	for _, e := range cfg.Events {
 		r.byID[e.ID] = e
 		w, err := norm([]byte(evJSON(e)))
@@ -992,6 +995,13 @@ func (h *H) Run(cc core.Cfg, sim *simrt.Sim) *core.Outcome {
 	// coverage: every deliverable event exactly once among the 2xx-answered payloads
 	retried := r.had5xx
 	for _, e := range cfg.Events {
+		if r.inDLQ[e.ID] && r.mainCommits[e.ID] > 0 {
+			// C09: "handed to the dead-queue output ... and then committed by the dead queue alone"
+			r.o.Violate("C09", "committed-by-main-output-and-dead-queue", "%s output: event id %d was handed to the dead queue and also committed by the main output (%d times)", cfg.Sink, e.ID, r.mainCommits[e.ID])
+		}
+		if r.commits[e.ID] > 1 {
+			r.viol("event-committed-twice", "event id %d was committed %d times (main output %d times, dead queue: %v)", e.ID, r.commits[e.ID], r.mainCommits[e.ID], r.inDLQ[e.ID])
+		}
 		okCount := 0
 		for _, d := range r.deliv[e.ID] {
 			if d.ok {
